@@ -200,9 +200,12 @@ ExtraSpace(p, f, v) ==      \* sel "*" = any selector text (the property does no
   {[isEnum |-> FALSE, idx |-> i, name |-> v, sel |-> "*"] : i \in -1 .. (Len(Incs(p, f)) - 1)}
   \cup UNION {{[isEnum |-> TRUE, idx |-> i, name |-> v, sel |-> s] : s \in TypeNames(p, IF i = -1 THEN f ELSE Incs(p, f)[i + 1])}
               : i \in -1 .. (Len(Incs(p, f)) - 1)}
-AllowedExtra(p, f, segs) ==
-  LET T == ValTargets(p, f, segs) IN
-  {x \in ExtraSpace(p, f, segs[Len(segs)]) : Cardinality(ExtraTargets(p, f, x)) = 1 /\ ExtraTargets(p, f, x) \subseteq T}
+\* (values are handed on as operator arguments, not LET definitions: TLC re-evaluates a LET body on every use inside a
+\*  quantified context, an argument is evaluated once)
+SingleIn(X, T) == Cardinality(X) = 1 /\ X \subseteq T
+AllowedExtraT(p, f, segs, T) ==
+  {x \in ExtraSpace(p, f, segs[Len(segs)]) : SingleIn(ExtraTargets(p, f, x), T)}
+AllowedExtra(p, f, segs) == AllowedExtraT(p, f, segs, ValTargets(p, f, segs))
 ExtraOK(p, f, segs, x) ==   \* membership test for an observed record (sel of a constant binding is free)
   /\ x.name = segs[Len(segs)]
   /\ Cardinality(ExtraTargets(p, f, x)) = 1
